@@ -389,6 +389,8 @@ def _parse(row, *counts):
 
 
 def correspondence(ctx):
+    for name, inp, fname in _corpus():
+        _check(ctx, name, inp, {'corpus': fname}, True, 'corpus')
     cv, ot, dg, dt, ft = _impl()
     rng = ctx.rng
     small, big = _shapes(ctx)
@@ -558,6 +560,18 @@ def correspondence(ctx):
         fn(row)
 
 
+def _corpus():
+    """minimised past failures (corpus/C15/*.json), always evaluated first"""
+    import glob
+    import json
+    import os
+    out = []
+    for path in sorted(glob.glob(os.path.join(C.VERIF, 'corpus', 'C15', '*.json'))):
+        rec = json.load(open(path))
+        out.append((rec['item'], rec['input'], os.path.basename(path)))
+    return out
+
+
 # ------------------------------------------------------------------------------------------------
 # failing-input search on the real code: small scope first
 # ------------------------------------------------------------------------------------------------
@@ -568,6 +582,10 @@ def search(ctx, hints):
     def found(name, inp, detail):
         return {'item': name, 'input': dict(inp, item=name), 'detail': detail}
 
+    for name, inp, fname in _corpus():
+        ok, detail = _run_pred(name, inp)
+        if not ok:
+            return found(name, inp, f'[corpus/{fname}] {detail}')
     for shape in shapes:
         m, n = shape
         o, h, o2 = _obj(shape), _obj(shape, 3), _obj(shape, 5)
